@@ -40,10 +40,18 @@ TINY = ((4,), (1, 3), (2, 1, 2))
 DEPTHS = (1, 2, 4, 8, 16, 32)
 
 
+SUITE_CONTRACTS = True   # thorough tier also runs the repository's own tests under vlib/suite_plugin.py
+_SUITE_REQUIRED = ['suite:cread_checks', 'suite:creadinto_checks', 'suite:position_checks', 'suite:multi_file_readers']
+
+
 def REQUIRED(tier):
+    return _required(tier) + (_SUITE_REQUIRED if tier == "thorough" else [])
+
+
+def _required(tier):
     return ["ops:seek_set", "ops:seek_cur", "ops:cread", "ops:creadinto", "position_checks", "content_checks",
             "regime:read_spans_two_boundaries", "regime:seek_back_over_boundary", "regime:creadinto_hits_end",
-            "regime:cread_past_end_raises", "regime:position_exactly_at_boundary", "read_block:in_range", "read_block:rejected"]
+            "regime:cread_past_end_raises", "regime:position_exactly_at_boundary", "read_block:in_range", "read_block:rejected", "regime:member_file_with_trailing_partial_sample"]
 
 
 def EXHAUSTIVE(tier):
@@ -65,16 +73,19 @@ def cases(tier, seed):
         nfiles = int(rng.integers(1, 4))
         split = [int(rng.integers(1, 20)) for _ in range(nfiles)]
         yield {"kind": "random", "nbits": nbits, "nchans": nch, "split": split, "hseed": int(seed) * 100003 + k, "n": 8, "len": hlen,
-               "contig": bool(k % 5 != 4) or tier == "quick"}
+               "contig": bool(k % 5 != 4) or tier == "quick", "ragged": k % 3 == 2}
     for nbits in DEPTHS:
         for split in ([9], [4, 5], [2, 3, 4]):
             yield {"kind": "read_block", "nbits": nbits, "nchans": sigfile.legal_nchans(nbits, 2), "split": split, "dseed": int(seed)}
 
 
 # --------------------------------------------------------------------------
-def _mk_stream(ctx, nbits, nchans, split, dseed, contig=True):
-    """split in samples per file.  Returns (paths, model bytes, byte boundaries, X)."""
-    key = ("s", nbits, nchans, tuple(split), dseed, contig)
+def _mk_stream(ctx, nbits, nchans, split, dseed, contig=True, ragged=False):
+    """split in samples per file.  Returns (paths, model bytes, byte boundaries, X).
+
+    ragged: every file but the last carries a trailing incomplete sample (whole items, fewer than one sample): the property
+    ranges over arbitrary per-file lengths and the stream is the files' data sections - all of their bytes - joined end to end."""
+    key = ("s", nbits, nchans, tuple(split), dseed, contig, ragged)
     cache = ctx.notes.setdefault("_cache", {})
     if key in cache:
         return cache[key]
@@ -101,8 +112,16 @@ def _mk_stream(ctx, nbits, nchans, split, dseed, contig=True):
             sigfile.write_fil(p, X[pos : pos + n], nbits, tstart=58000.0 + 0.25 * i, rawdatafile="q" * (2 * i + 1))
             paths.append(p)
             pos += n
+    if ragged:
+        isz = {16: 2, 32: 4}.get(nbits, 1)
+        stride = nchans * nbits // 8
+        for i, p in enumerate(paths[:-1]):
+            nstray = (1 + (dseed + i) % max(1, stride // isz - 1)) * isz
+            if nstray < stride:
+                with open(p, "ab") as fh:
+                    fh.write(bytes((0xA0 + 7 * i + j) % 256 for j in range(nstray)))
     model = b"".join(sigfile.parse_file(p)[2] for p in paths)
-    assert model == sigfile.encode_data(X, nbits)
+    assert ragged or model == sigfile.encode_data(X, nbits)
     lens = [len(sigfile.parse_file(p)[2]) for p in paths]
     bounds = np.cumsum(lens)[:-1].tolist()
     cache[key] = (paths, model, bounds, X)
@@ -255,7 +274,7 @@ def run_case(case, ctx):
     if kind in ("lattice", "history"):
         split = case["split"]
         nbits, nch = case.get("nbits", 8), case.get("nchans", 1)
-        paths, model, bounds, X = _mk_stream(ctx, nbits, nch, split, case.get("dseed", 0), case.get("contig", True))
+        paths, model, bounds, X = _mk_stream(ctx, nbits, nch, split, case.get("dseed", 0), case.get("contig", True), case.get("ragged", False))
         hdr, rd0 = _open_reader(paths, nbits, case.get("contig", True))
         rd0.close()
         sinfo = hdr.stream_info
@@ -295,7 +314,9 @@ def run_case(case, ctx):
         return
     if kind == "random":
         nbits, nch, split = case["nbits"], case["nchans"], case["split"]
-        paths, model, bounds, X = _mk_stream(ctx, nbits, nch, split, case["hseed"], case["contig"])
+        paths, model, bounds, X = _mk_stream(ctx, nbits, nch, split, case["hseed"], case["contig"], case.get("ragged", False))
+        if case.get("ragged") and len(model) != len(sigfile.encode_data(X, nbits)):
+            ctx.count("regime:member_file_with_trailing_partial_sample")
         hdr, rd0 = _open_reader(paths, nbits, case["contig"])
         rd0.close()
         T = len(model)
@@ -322,7 +343,7 @@ def run_case(case, ctx):
                     n = int(rng.integers(0, (T - pos) // isz + 3)) * isz
                     ops.append(("ci", n)); pos += min(n, T - pos)
             rec_case = {"kind": "history", "nbits": nbits, "nchans": nch, "split": split, "dseed": case["hseed"],
-                        "contig": case["contig"], "ops": [list(o) for o in ops]}
+                        "contig": case["contig"], "ragged": case.get("ragged", False), "ops": [list(o) for o in ops]}
             ok = run_history(ctx, hdr.stream_info, nbits, model, bounds, ops, rec_case)
             if h == 0 and ok:
                 ctx.sample({"nbits": nbits, "nchans": nch, "samples_per_file": split, "ops_head": [list(o) for o in ops[:10]], "n_ops": len(ops)})
